@@ -239,6 +239,9 @@ func (ch *channel) SendEnd(ctx async.Context) status.Status {
 // The message is valid until the next call to Receive/ReceiveAsync.
 func (ch *channel) Receive(ctx async.Context) ([]byte, status.Status) {
 	for {
+		// Get the wait channel before polling, see mpx.Channel.Receive.
+		wait := ch.ReceiveWait()
+
 		msg, ok, st := ch.ReceiveAsync(ctx)
 		switch {
 		case !st.OK():
@@ -250,7 +253,7 @@ func (ch *channel) Receive(ctx async.Context) ([]byte, status.Status) {
 		select {
 		case <-ctx.Wait():
 			return nil, ctx.Status()
-		case <-ch.ReceiveWait():
+		case <-wait:
 		}
 	}
 }
